@@ -57,21 +57,28 @@ def float_sweep(payload):
     only COMPARES the given floats, so it is exact on binary64 inputs."""
     rnd = random.Random(payload.get('seed', 0) + 7)
     tried = 0
-    for _ in range(int(payload.get('n', 300))):
+    big = 1.5e308
+    for k in range(int(payload.get('n', 300))):
         n = rnd.randint(1, 12)
         bs = []
         for i in range(n):
             x1, y1 = rnd.randint(0, 12) * 0.1, rnd.randint(0, 12) * 0.1
             bs.append((i, (x1, y1, x1 + rnd.choice([0, 1, 2, 3]) * 0.1, y1 + rnd.choice([0, 1, 2, 3]) * 0.1)))
+        if k % 25 == 0:
+            # finite coordinates of very large magnitude on both sides of the origin (sums overflow, halves do not)
+            bs = [(0, (-big, -big, -big / 2, -big / 2)), (1, (big / 2, big / 4, big, big / 2)), (2, (-1.0, -1.0, 1.0, 1.0)), (3, (big / 3, -big, big / 2, -big / 2)),
+                  (4, (-big, big / 2, -big / 2, big))][:rnd.randint(2, 5)]
         try:
             idx = rtree.Index(list(bs))
         except RecursionError:
             return {'found': True, 'input': {'boxes': bs}, 'observed': 'construction does not terminate (RecursionError)', 'expected': 'terminates', 'tried': tried}
         except Exception as ex:    # noqa
             return {'found': True, 'input': {'boxes': bs}, 'observed': f'raised {type(ex).__name__}: {ex}', 'expected': 'an index', 'tried': tried}
-        for _ in range(6):
+        for j in range(6):
             x, y = rnd.randint(-1, 13) * 0.1, rnd.randint(-1, 13) * 0.1
             q = (x, y, x + rnd.choice([0, 1, 2]) * 0.1, y + rnd.choice([0, 1, 2]) * 0.1)
+            if k % 25 == 0:
+                q = [(-big, -big, big, big), (big / 2, big / 4, big, big / 2), (-1.0, -1.0, 0.0, 0.0), (-big, -big, -big / 2, -big / 2), (0.0, 0.0, big, big), (-big, 0.0, 0.0, big)][j]
             tried += 1
             want = brute(bs, q)
             try:
